@@ -2,6 +2,7 @@ package load
 
 import (
 	"fmt"
+	"os"
 	"go/ast"
 	"go/token"
 	"go/types"
@@ -92,11 +93,14 @@ func sroaFunc(p *packages.Package, f *ast.File, fd *ast.FuncDecl, isNewStruct fu
 	info := p.TypesInfo
 	// candidate roots
 	type root struct {
-		def *ast.AssignStmt
-		obj types.Object
-		lit *ast.CompositeLit
-		st  *types.Struct
-		nm  *types.Named
+		def   *ast.AssignStmt // x := &T{…}
+		decl  *ast.GenDecl    // var x T   (byValue)
+		spec  *ast.ValueSpec
+		obj   types.Object
+		lit   *ast.CompositeLit
+		st    *types.Struct
+		nm    *types.Named
+		ident *ast.Ident
 	}
 	var roots []root
 	// parents for loop test
@@ -172,7 +176,36 @@ func sroaFunc(p *packages.Package, f *ast.File, fd *ast.FuncDecl, isNewStruct fu
 		if inLoop(as) || info.Defs[id] == nil {
 			return true
 		}
-		roots = append(roots, root{as, info.Defs[id], lit, st, nm})
+		roots = append(roots, root{def: as, obj: info.Defs[id], lit: lit, st: st, nm: nm, ident: id})
+		return true
+	})
+	// `var x T` of a new struct type (zero value), handed around as &x
+	ast.Inspect(fd.Body, func(n ast.Node) bool {
+		ds, ok := n.(*ast.DeclStmt)
+		if !ok {
+			return true
+		}
+		gd, ok := ds.Decl.(*ast.GenDecl)
+		if !ok || gd.Tok != token.VAR || len(gd.Specs) != 1 {
+			return true
+		}
+		vs, ok := gd.Specs[0].(*ast.ValueSpec)
+		if !ok || len(vs.Names) != 1 || len(vs.Values) != 0 || vs.Type == nil {
+			return true
+		}
+		obj := info.Defs[vs.Names[0]]
+		if obj == nil {
+			return true
+		}
+		nm, ok := obj.Type().(*types.Named)
+		if !ok || nm.Obj().Pkg() == nil || !isNewStruct(nm.Obj().Pkg().Path(), nm.Obj().Name()) {
+			return true
+		}
+		st, ok := nm.Underlying().(*types.Struct)
+		if !ok || inLoop(ds) {
+			return true
+		}
+		roots = append(roots, root{decl: gd, spec: vs, obj: obj, st: st, nm: nm, ident: vs.Names[0]})
 		return true
 	})
 	if len(roots) == 0 {
@@ -190,10 +223,22 @@ func sroaFunc(p *packages.Package, f *ast.File, fd *ast.FuncDecl, isNewStruct fu
 					return true
 				}
 				return alias[info.Uses[x]]
-			case *ast.ParenExpr:
-				return false
+			case *ast.UnaryExpr:
+				if x.Op == token.AND && r.decl != nil {
+					if id, ok := x.X.(*ast.Ident); ok && info.Uses[id] == r.obj {
+						return true
+					}
+				}
 			}
 			return false
+		}
+		rootAddr := func(e ast.Expr) *ast.Ident {
+			if x, ok := e.(*ast.UnaryExpr); ok && x.Op == token.AND && r.decl != nil {
+				if id, ok := x.X.(*ast.Ident); ok && info.Uses[id] == r.obj {
+					return id
+				}
+			}
+			return nil
 		}
 		// assignments per object
 		type asg struct {
@@ -279,6 +324,9 @@ func sroaFunc(p *packages.Package, f *ast.File, fd *ast.FuncDecl, isNewStruct fu
 					if id, ok := a.rhs.(*ast.Ident); ok && alias[info.Uses[id]] {
 						some = true
 					}
+					if rootAddr(a.rhs) != nil {
+						some = true
+					}
 				}
 				if all && some {
 					alias[o] = true
@@ -288,7 +336,18 @@ func sroaFunc(p *packages.Package, f *ast.File, fd *ast.FuncDecl, isNewStruct fu
 		}
 		// the root itself must have exactly its definition as assignment
 		if len(assigns[r.obj]) != 1 {
+			sroaDebug("give up at line 338")
 			continue
+		}
+		if r.decl != nil {
+			// the by-value root is no pointer alias of itself in assignments, only through &x
+			for o := range alias {
+				if o != r.obj {
+					if _, isPtr := o.Type().(*types.Pointer); !isPtr {
+						delete(alias, o)
+					}
+				}
+			}
 		}
 		// every use of an alias is allowed
 		okUses := true
@@ -322,6 +381,7 @@ func sroaFunc(p *packages.Package, f *ast.File, fd *ast.FuncDecl, isNewStruct fu
 			return true
 		})
 		if !okUses {
+			sroaDebug("give up at line 382")
 			continue
 		}
 		// statements to rewrite: alias assignments
@@ -332,7 +392,8 @@ func sroaFunc(p *packages.Package, f *ast.File, fd *ast.FuncDecl, isNewStruct fu
 		byStmt := map[ast.Node]*stmtEdit{}
 		for o := range alias {
 			for _, a := range assigns[o] {
-				if a.stmt == ast.Node(r.def) {
+				if (r.def != nil && a.stmt == ast.Node(r.def)) || (r.spec != nil && a.stmt == ast.Node(r.spec)) {
+					sroaDebug("give up at line 393")
 					continue
 				}
 				se := byStmt[a.stmt]
@@ -349,10 +410,16 @@ func sroaFunc(p *packages.Package, f *ast.File, fd *ast.FuncDecl, isNewStruct fu
 					if id, ok := s.Rhs[a.idx].(*ast.Ident); ok {
 						handled[id] = true
 					}
+					if id := rootAddr(s.Rhs[a.idx]); id != nil {
+						handled[id] = true
+					}
 				case *ast.ValueSpec:
 					handled[s.Names[a.idx]] = true
 					if a.rhs != nil {
 						if id, ok := a.rhs.(*ast.Ident); ok {
+							handled[id] = true
+						}
+						if id := rootAddr(a.rhs); id != nil {
 							handled[id] = true
 						}
 					}
@@ -373,7 +440,7 @@ func sroaFunc(p *packages.Package, f *ast.File, fd *ast.FuncDecl, isNewStruct fu
 			return true
 		})
 		// the root's defining ident
-		handled[r.def.Lhs[0].(*ast.Ident)] = true
+		handled[r.ident] = true
 		// any other mention of an alias → give up
 		ast.Inspect(fd.Body, func(n ast.Node) bool {
 			if id, ok := n.(*ast.Ident); ok && !handled[id] {
@@ -388,10 +455,12 @@ func sroaFunc(p *packages.Package, f *ast.File, fd *ast.FuncDecl, isNewStruct fu
 			return okUses
 		})
 		if !okUses {
+			sroaDebug("give up at line 454")
 			continue
 		}
 		src := getSrc()
 		if src == nil {
+			sroaDebug("give up at line 458")
 			continue
 		}
 		*counter++
@@ -413,6 +482,7 @@ func sroaFunc(p *packages.Package, f *ast.File, fd *ast.FuncDecl, isNewStruct fu
 			decl.WriteString(fmt.Sprintf("var %s %s; _ = %s; ", varName(fl), tt, varName(fl)))
 		}
 		if !okTypes {
+			sroaDebug("give up at line 479")
 			continue
 		}
 		var local []edit
@@ -421,7 +491,11 @@ func sroaFunc(p *packages.Package, f *ast.File, fd *ast.FuncDecl, isNewStruct fu
 		var def strings.Builder
 		def.WriteString("{ ")
 		given := map[string]bool{}
-		for _, e := range r.lit.Elts {
+		var elts []ast.Expr
+		if r.lit != nil {
+			elts = r.lit.Elts
+		}
+		for _, e := range elts {
 			kv := e.(*ast.KeyValueExpr)
 			k, ok := kv.Key.(*ast.Ident)
 			if !ok {
@@ -432,6 +506,7 @@ func sroaFunc(p *packages.Package, f *ast.File, fd *ast.FuncDecl, isNewStruct fu
 			def.WriteString(fmt.Sprintf("_sr%d_%s = %s; ", n, k.Name, string(src[off(kv.Value.Pos()):off(kv.Value.End())])))
 		}
 		if !okTypes {
+			sroaDebug("give up at line 502")
 			continue
 		}
 		for i := 0; i < r.st.NumFields(); i++ {
@@ -441,7 +516,11 @@ func sroaFunc(p *packages.Package, f *ast.File, fd *ast.FuncDecl, isNewStruct fu
 			}
 		}
 		def.WriteString("}")
-		local = append(local, edit{off(r.def.Pos()), off(r.def.End()), def.String()})
+		if r.def != nil {
+			local = append(local, edit{off(r.def.Pos()), off(r.def.End()), def.String()})
+		} else {
+			local = append(local, edit{off(r.decl.Pos()), off(r.decl.End()), def.String()})
+		}
 		// selectors
 		for _, s := range sels {
 			local = append(local, edit{off(s.sel.Pos()), off(s.sel.End()), varName(s.fld)})
@@ -454,6 +533,7 @@ func sroaFunc(p *packages.Package, f *ast.File, fd *ast.FuncDecl, isNewStruct fu
 				var ls, rs []string
 				for i := range s.Lhs {
 					if se.drop[i] {
+						sroaDebug("give up at line 528")
 						continue
 					}
 					ls = append(ls, string(src[off(s.Lhs[i].Pos()):off(s.Lhs[i].End())]))
@@ -465,10 +545,11 @@ func sroaFunc(p *packages.Package, f *ast.File, fd *ast.FuncDecl, isNewStruct fu
 				}
 				// an assignment used as the init of an if/for/switch cannot become a block
 				if _, isBlockItem := parents[s].(*ast.BlockStmt); !isBlockItem && len(ls) == 0 {
-					if _, isCase := parents[s].(*ast.CaseClause); !isCase {
-						if _, isLabeled := parents[s].(*ast.LabeledStmt); !isLabeled {
-							bad = true
-						}
+					_, isCase := parents[s].(*ast.CaseClause)
+					_, isComm := parents[s].(*ast.CommClause)
+					_, isLabeled := parents[s].(*ast.LabeledStmt)
+					if !isCase && !isLabeled && !(isComm && parents[s].(*ast.CommClause).Comm != ast.Stmt(s)) {
+						bad = true
 					}
 				}
 				local = append(local, edit{off(s.Pos()), off(s.End()), text})
@@ -490,6 +571,7 @@ func sroaFunc(p *packages.Package, f *ast.File, fd *ast.FuncDecl, isNewStruct fu
 			local = append(local, edit{off(b.Pos()), off(b.End()), "{}"})
 		}
 		if bad {
+			sroaDebug("give up at line 564")
 			continue
 		}
 		// selector edits inside a rewritten statement would overlap: check
@@ -502,10 +584,18 @@ func sroaFunc(p *packages.Package, f *ast.File, fd *ast.FuncDecl, isNewStruct fu
 		}
 		if overlap {
 			// re-render statements that contain selectors is not supported
+			sroaDebug("give up at line 576")
 			continue
 		}
 		edits = append(edits, local...)
 		notes = append(notes, fmt.Sprintf("local %s object of %s (only used through its fields) analysed as one variable per field", r.nm.Obj().Name(), fd.Name.Name))
 	}
 	return edits, imps, notes
+}
+
+
+func sroaDebug(msg string) {
+	if os.Getenv("VCHECK_DEBUG_SROA") != "" {
+		fmt.Println("sroa:", msg)
+	}
 }
